@@ -52,12 +52,16 @@ def scenarios(rng, tier):
         for off in range(0, len(i2) + 1, P): s.frame(0, qlt(M, own, 14, off, seq=3))
         s.frame(0, qlt(M, own, 17, 0, seq=4))
     for k in range(10 if tier == 'quick' else 200):
-        m0, m1 = rng.choice([(1500, 576), (9216, 1500), (1500, 590), (576, 1500)])
+        m0, m1 = [(1500, 576), (9216, 1500), (1500, 590), (576, 1500)][(k // 2) % 4] if k < 8 else rng.choice([(1500, 576), (9216, 1500), (1500, 590), (576, 1500)])
         icon = bytes((3 * j) & 255 for j in range(5000))
         s.start('mtuwalk_%d' % k); s.lines.append(Cfg(0, mtu=m0).line()); s.lines.append(gline(icon=icon, fname=bytes(range(250)) * 3))
-        M = mac(1); s.frame(0, discover(M, gen=1)); s.frame(0, qlt(M, OWN0, 14, 0, seq=2)); s.frame(0, qlt(M, OWN0, 17, 0, seq=2))
+        pure = k % 2 == 1          # one transfer only, nothing else asked in between (the MTU changes in the middle of it)
+        M = mac(1); s.frame(0, discover(M, gen=1)); s.frame(0, qlt(M, OWN0, 14, 0, seq=2))
+        if not pure: s.frame(0, qlt(M, OWN0, 17, 0, seq=2))
         s.lines.append(Cfg(0, mtu=m1).line())
-        for off in (m0 - 34, m0 - 34 + m1 - 34, 0, m1 - 34): s.frame(0, qlt(M, OWN0, 14, off, seq=3)); s.frame(0, qlt(M, OWN0, 17, off % 700, seq=3))
+        for off in (m0 - 34, m0 - 34 + m1 - 34, 0, m1 - 34):
+            s.frame(0, qlt(M, OWN0, 14, off, seq=3))
+            if not pure: s.frame(0, qlt(M, OWN0, 17, off % 700, seq=3))
     oth = other_iface_variants(s.text(), rng, 10 if tier == 'quick' else 150)
     return [(s.text(), {}), (oth, {'family': 'other-interface'})]
 def project(blk, name, meta):
